@@ -167,20 +167,19 @@ func partC(t *testing.T, run *ev.Run, baseDir string, i int) {
 			b.Kind = "transfer"
 		}
 		switch k {
-		case 0:
+		case 0, 2:
 			b.Kind = "public-upload-two-namespaces"
 		case 1:
 			b.Kind = "transfer"
-		case 2:
-			b.Kind = "public-upload"
 		}
 		switch b.Kind {
 		case "public-upload", "duplicate-upload-delayed":
-			b.Namespaces = []string{cNamespaces[0]}
+			b.Namespaces = []string{cNamespaces[r.Intn(2)]}
 		case "public-upload-two-namespaces":
-			// the same layer pushed under two namespaces, in either order
+			// the same layer pushed under two namespaces; both push orders
+			// occur in every scenario (blob 0: a then b, blob 2: b then a)
 			b.Namespaces = []string{cNamespaces[0], cNamespaces[1]}
-			if r.Intn(2) == 0 {
+			if k == 2 || (k > 2 && r.Intn(2) == 0) {
 				b.Namespaces = []string{cNamespaces[1], cNamespaces[0]}
 			}
 		}
